@@ -3,7 +3,13 @@
 import json, os, re, subprocess, sys, glob
 V = '/verif'
 # which checks are expected to see each seed (first = the seeded property)
-extra = {"C03-1": ["C03", "C09"], "C14-1": ["C14", "C19"], "C09-1": ["C09", "C03"]}
+extra = {"C03-1": ["C03", "C09"], "C14-1": ["C14", "C19"], "C09-1": ["C09", "C03"], "C02-3": ["C02", "C19"], "C03-3": ["C03", "C14"],
+         "C15-2": ["C15", "C18"]}
+# seeds that exposed a genuine defect of the pinned tree which has since been repaired in /repo: with the repair in
+# place the seeded change no longer breaks the property (its demonstration passes), so no check is expected to fire
+superseded = {"C15-2": "the seed removed the follower/read-only checks of the read-write script handler, reachable from EVALRO/EVALNA only "
+                       "because a script could assign EVAL_CMD; that was a genuine defect (fix 0509b0a: the call kind is kept in the Lua registry). "
+                       "On the repaired tree the handler is reachable from EVAL/EVALSHA only, which are gated before the script runs, and the seed's demonstration passes."}
 needs = {}
 rows = []
 only = sys.argv[1:]
@@ -35,11 +41,15 @@ for d in sorted(glob.glob(V + '/seeded/C*')):
                 verified=dict(suite_passes_with_change=(ex('suite_exit') == 0), demo_fails_with_change=(ex('demo_with_exit') == 1), demo_passes_without_change=(ex('demo_without_exit') == 0),
                               how="tools/seedverify.sh in a scratch worktree: go build ./... && go test -vet=off -count=1 ./... (demo skipped); go test -run TestSeedDemo with the change; git apply -R; same test without the change; (a failing run of the known-flaky fence/roaming live or follower/follow test was re-run once)"),
                 checks=results, caught_by=[p for p, r in results.items() if r['caught']])
+    if name in superseded:
+        meta['superseded_by_fix'] = superseded[name]
     json.dump(meta, open(d + '/meta.json', 'w'), indent=1)
     rows.append(meta)
     print(name, meta['caught_by'], flush=True)
 with open(V + '/seeded/STATUS.md', 'w') as f:
     f.write("# Seeded changes and the checks that catch them\n\n| seed | property | files | caught by (assertion) |\n|---|---|---|---|\n")
     for m in rows:
-        c = "; ".join(f"{p}: {r['assert_']} ({r['harness']})" if r['caught'] else f"{p}: MISSED (exit {r['check_exit']})" for p, r in m['checks'].items())
+        c = "; ".join(f"{p}: {r['assert_']} ({r['harness']})" if r['caught'] else f"{p}: not fired (exit {r['check_exit']})" for p, r in m['checks'].items())
+        if m.get('superseded_by_fix'):
+            c = "superseded by a fix (see meta.json) - " + c
         f.write(f"| {m['seed']} | {m['property']} | {', '.join(m['files_changed'])} | {c} |\n")
